@@ -466,6 +466,117 @@ func rflSourceFacts(repo string, b *strings.Builder) error {
 		return fmt.Errorf("reflect extractor: alt.registerComposer: `ft = ft.Elem()` not found")
 	}
 	fmt.Fprintf(b, "/-- alt/recomposer.go registerComposer: the field walk unwraps containers in a loop, down to the element type -/\ndef altRegisterWalkUnwrapsAll : Bool := %v\n\n", inLoop)
+	// 041b92d: the loop remembers the NAMED container types it went through and stops at one met a
+	// second time (type Tree map[string]Tree): inside the labelled loop, before `ft = ft.Elem()`, an
+	// `if ft.Name() != ""` that ranges over the list, leaves the loop on a hit and appends otherwise
+	seenGuard := false
+	ast.Inspect(rc.Body, func(n ast.Node) bool {
+		ls, ok := n.(*ast.LabeledStmt)
+		if !ok {
+			return true
+		}
+		fs, ok := ls.Stmt.(*ast.ForStmt)
+		if !ok || fs.Cond != nil || fs.Init != nil || fs.Post != nil {
+			return true
+		}
+		label := ls.Label.Name
+		var elemPos, guardPos token.Pos
+		guardOK := false
+		ast.Inspect(fs.Body, func(m ast.Node) bool {
+			switch st := m.(type) {
+			case *ast.AssignStmt:
+				if rflExprText(fsr, st) == "ft = ft.Elem()" && elemPos == 0 {
+					elemPos = st.Pos()
+				}
+			case *ast.IfStmt:
+				if rflExprText(fsr, st.Cond) != `ft.Name() != ""` {
+					return true
+				}
+				leaves, appends := false, false
+				var listName string
+				ast.Inspect(st.Body, func(k ast.Node) bool {
+					switch x := k.(type) {
+					case *ast.RangeStmt:
+						listName = rflExprText(fsr, x.X)
+						val := ""
+						if x.Value != nil {
+							val = rflExprText(fsr, x.Value)
+						}
+						ast.Inspect(x.Body, func(q ast.Node) bool {
+							if is, ok := q.(*ast.IfStmt); ok {
+								c := rflExprText(fsr, is.Cond)
+								if val != "" && (c == val+" == ft" || c == "ft == "+val) {
+									for _, bs := range is.Body.List {
+										if br, ok := bs.(*ast.BranchStmt); ok && br.Tok == token.BREAK && br.Label != nil && br.Label.Name == label {
+											leaves = true
+										}
+									}
+								}
+							}
+							return true
+						})
+					case *ast.AssignStmt:
+						if listName != "" && rflExprText(fsr, x) == listName+" = append("+listName+", ft)" {
+							appends = true
+						}
+					}
+					return true
+				})
+				if leaves && appends {
+					guardOK, guardPos = true, st.Pos()
+				}
+			}
+			return true
+		})
+		if guardOK && elemPos != 0 && guardPos < elemPos {
+			seenGuard = true
+		}
+		return true
+	})
+	fmt.Fprintf(b, "/-- alt/recomposer.go registerComposer: the unwrap loop of the field walk stops at a NAMED container type it meets a second time (041b92d; before, `type Tree map[string]Tree` as a field type made it spin for ever) -/\ndef altRegisterWalkSeenGuard : Bool := %v\n\n", seenGuard)
+	// the order in which recomp's struct case looks a member up for an index entry: every `vm[…]` inside
+	// the loop over the field index, in source order, and where `name[0] |= 0x20` stands among them
+	var lookups []string
+	foundLoop := false
+	ast.Inspect(rp.Body, func(n ast.Node) bool {
+		rs, ok := n.(*ast.RangeStmt)
+		if !ok || rflExprText(fsr, rs.X) != "im" {
+			return true
+		}
+		foundLoop = true
+		ast.Inspect(rs.Body, func(m ast.Node) bool {
+			switch x := m.(type) {
+			case *ast.IndexExpr:
+				if rflExprText(fsr, x.X) == "vm" {
+					lookups = append(lookups, rflExprText(fsr, x))
+				}
+			case *ast.AssignStmt:
+				if t := rflExprText(fsr, x); t == "name[0] |= 0x20" {
+					lookups = append(lookups, t)
+				}
+			case *ast.CallExpr:
+				// a helper that is handed the member map does the lookups somewhere else: name it
+				for _, a := range x.Args {
+					if rflExprText(fsr, a) == "vm" {
+						lookups = append(lookups, "call:"+rflExprText(fsr, x.Fun))
+					}
+				}
+			}
+			return true
+		})
+		return false
+	})
+	if !foundLoop {
+		return fmt.Errorf("reflect extractor: alt.recomp: the loop over the field index `im` not found")
+	}
+	fmt.Fprintf(b, "/-- alt/recomposer.go recomp, struct case: the member lookups for one index entry, in source order (`vm[k]` is the index key, i.e. the json tag name) -/\ndef altRecompMemberLookups : List String := [")
+	for i, l := range lookups {
+		if i > 0 {
+			b.WriteString(", ")
+		}
+		fmt.Fprintf(b, "%q", l)
+	}
+	b.WriteString("]\n\n")
 	// value-level repairs 4344ad7, f1da31f, b19f06c
 	sv := rflFuncDecl(fr, "Recomposer", "setValue")
 	if sv == nil {
